@@ -1078,3 +1078,61 @@ func ruleR121(c *Ctx) {
 		c.Missing("edge loop", "no loop appending to a []BPMNEdge was found in the builder")
 	}
 }
+
+// ---- R122 ----
+
+func init() {
+	register(&Rule{ID: "R122", Title: "hooks are asked each time: what a token's hook (termination channel lookup, action transformer) returns is used where it is obtained, never kept in a field of the token", Min: 1, Run: ruleR122})
+}
+
+func ruleR122(c *Ctx) {
+	p := c.P
+	what := "the event-based gateway hands out a NEW withdrawal channel to every token each round and replaces its table when a round is decided; a token that remembers the channel it was given for 'this node' keeps the closed channel of the previous round when a loop brings it back — it can no longer be withdrawn, and the winner of the next round blocks for ever notifying it"
+	ll := longLivedTypes(p)
+	n := 0
+	for _, f := range p.Funcs {
+		if f.Body == nil || f.Pkg.PkgPath != pathBpmn {
+			continue
+		}
+		in := info(f)
+		isHookCall := func(e ast.Expr) (string, bool) {
+			cl, ok := unparen(e).(*ast.CallExpr)
+			if !ok {
+				return "", false
+			}
+			fv := fieldOf(in, cl.Fun)
+			if fv == nil {
+				return "", false
+			}
+			if _, isFn := fv.Type().Underlying().(*types.Signature); !isFn {
+				return "", false
+			}
+			sel := unparen(cl.Fun).(*ast.SelectorExpr)
+			if owner := namedOf(in.TypeOf(sel.X)); owner == nil || !ll[owner] {
+				return "", false
+			}
+			return fv.Name(), true
+		}
+		inspectNoLit(f.Body, func(m ast.Node) bool {
+			switch x := m.(type) {
+			case *ast.CallExpr:
+				if name, ok := isHookCall(x); ok {
+					n++
+					stored := ""
+					if as, ok := p.Parent(x).(*ast.AssignStmt); ok {
+						for _, l := range as.Lhs {
+							if lf := fieldOf(in, l); lf != nil {
+								stored = lf.Name()
+							}
+						}
+					}
+					c.Check(stored == "", f, x, "result of hook "+name, what, ifElse(stored == "", "used where it is obtained (returned, received from, or bound to a local)", "stored in field "+stored))
+				}
+			}
+			return true
+		})
+	}
+	if n == 0 {
+		c.Missing("hook calls", "no call of a function-typed field of a token or node was found")
+	}
+}
